@@ -7,17 +7,20 @@ from gv.model import dbutil
 
 ID = "C11"
 RULE = (
-    "One memoised 16-feature file database (thorough: also a 30-feature one = the 16 plus 14 shifted copies) with mixed-case / "
-    "non-ASCII seqids, numeric-looking scores, ties in every column, '.' coordinates and extra columns. Part 'query' (shards = database "
-    "x method {all_features, features_of_type} x featuretype {None, str, tuple, list, absent type, a 662-entry list} x strand "
-    "{None,+,-,.}): order_by over 157 options {none, each of 12 names (8 columns, attributes, extra, file_order, length) as string, as "
-    "1-tuple, every ordered pair} x reverse (single column only). The result set is compared with a brute-force filter "
-    "(result-set-differs; the query must not raise), an unfiltered unordered iteration must be in input order, ordered results must be "
-    "monotone under SQLite's comparison (NULL first, ties in any order), and each returned feature's file_order attribute must match. "
-    "Part 'counts' (1 shard per database, 10 executions): count_features_of_type for None and 5 types (one absent) against the model "
-    "and against iteration; featuretypes() and seqids() listings; full scan order; counts asked while a listing is being consumed and "
-    "two listings zipped. Non-trivial = the expected result has >= 2 features and an order or a filter is given; every counts "
-    "execution."
+    "One memoised 19-feature file database (thorough: also a 33-feature one = the 19 plus 14 shifted copies) with mixed-case / "
+    "non-ASCII seqids, numeric-looking scores, ties in every column, '.' coordinates, extra columns and featuretypes differing only by "
+    "case ('CDS'/'cds'), by an SQL-wildcard position ('five-prime-UTR') or holding a quote (5'UTR). Part 'query' (shards = database x "
+    "method {all_features, features_of_type} x featuretype (12 forms: None, str, tuple, list, absent type, a 662-entry list, 'CDS', the "
+    "absent 'five_prime_UTR', the quoted type alone and in a list, ('cds','%'), a set) x strand {None,+,-,.}): order_by over 157 "
+    "options {none, each of 12 names (8 columns, attributes, extra, file_order, length) as string, as 1-tuple, every ordered pair} "
+    "(thorough 307: plus every ordered triple and every ordered pair as a list over 6 names) x reverse (single column only). The result "
+    "set is compared with a brute-force filter (result-set-differs; the query must not raise), the same call with positional arguments "
+    "must return the same (same order for a single order column), an unfiltered unordered iteration must be in input order, ordered "
+    "results must be monotone under SQLite's comparison (NULL first, ties in any order), and each returned feature's file_order "
+    "attribute must match. Part 'counts' (1 shard per database, 13 executions): count_features_of_type for None and 8 types (two "
+    "absent) against the model and against iteration; featuretypes() and seqids() listings; full scan order; counts asked while a "
+    "listing is being consumed and two listings zipped. Non-trivial = the expected result has >= 2 features and an order or a filter is "
+    "given; every counts execution. reverse is only named when True (ascending is the documented default)."
 )
 ASSUMPTIONS = [
     "ordering is SQLite's documented comparison for the column's storage class: integers numerically, text by code point (BINARY), NULL first; ties in any order",
@@ -83,7 +86,7 @@ STRANDS = [None, "+", "-", "."]
 
 
 def bounds(tier):
-    return dict(databases=["small"] if tier == "quick" else ["small", "large"], features=[len(ROWS)] + ([30] if tier != "quick" else []),
+    return dict(databases=["small"] if tier == "quick" else ["small", "large"], features=[len(ROWS)] + ([len(rows_for("large"))] if tier != "quick" else []),
                 order_by_options=len(order_options(tier)), featuretypes=[repr(f)[:60] for f in FTS], strands=STRANDS)
 
 
@@ -172,7 +175,7 @@ def body(ch, ctx):
     ctx.sample(lambda: dict(db=which, method=method, featuretype=ft, strand=strand, order_by=ob, reverse=reverse, n_expected=len(exp)))
     ctx.nontrivial(len(exp) >= 2 and (ob is not None or ft is not None or strand is not None))
     ctx.outcome((which, method, fi, si, repr(ob), reverse))
-    kw = dict(strand=strand, order_by=ob, reverse=reverse)
+    kw = dict(strand=strand, order_by=ob, **(dict(reverse=True) if reverse else {}))        # ascending is the default
     sig = dict(method=method, order_by_form="none" if ob is None else ("string" if isinstance(ob, str) else "tuple%d" % len(ob)),
                reverse=reverse, length="length" in (ob if isinstance(ob, (tuple, list)) else (ob,)))
     try:
